@@ -73,6 +73,18 @@ pub fn run(c: &Case, tmp: &std::path::Path) -> Vec<String> {
     let target = main.clone();
     // optional prefix: embed the manifest-holding file at an offset of a bigger container via concat? (kept simple:
     // `shift` copies the file after `shift` bytes of padding inside a fresh container pack using tools::concat)
+    if c.po("groups").is_some() {
+        // a manifest as another producer may write it: every pack info carries a non-zero packGroup (a checked byte
+        // the library's own creator always leaves at 0); block CRCs and the manifest digest are recomputed
+        let mut b = std::fs::read(&target).unwrap();
+        match patch_groups(&mut b) {
+            Ok(()) => std::fs::write(&target, &b).unwrap(),
+            Err(e) => {
+                out.push(format!("{} create PATCH_FAIL {}", c.id, e.replace(' ', "_")));
+                return out;
+            }
+        }
+    }
     let bytes0 = std::fs::read(&target).unwrap();
     let orig = tmp.join(format!("orig_{}.bin", c.id));
     std::fs::write(&orig, &bytes0).unwrap();
@@ -140,4 +152,65 @@ pub fn run(c: &Case, tmp: &std::path::Path) -> Vec<String> {
     }
     let _ = std::fs::remove_dir_all(&dir);
     out
+}
+
+fn le(b: &[u8]) -> u64 {
+    b.iter().rev().fold(0u64, |a, x| (a << 8) | *x as u64)
+}
+
+/// CRC bytes of a block as stored in the file: the byte order is taken from an existing block of the same file.
+fn crc_bytes(data: &[u8], big_endian: bool) -> [u8; 4] {
+    let v = jbk::verif_api::crc32(data);
+    if big_endian {
+        v.to_be_bytes()
+    } else {
+        v.to_le_bytes()
+    }
+}
+
+fn patch_groups(b: &mut [u8]) -> Result<(), String> {
+    // the manifest pack: first position holding "jbkm" followed by a header block whose CRC verifies
+    let mut found = None;
+    for pos in 0..b.len().saturating_sub(64) {
+        if &b[pos..pos + 4] == b"jbkm" {
+            for be in [false, true] {
+                if crc_bytes(&b[pos..pos + 60], be) == b[pos + 60..pos + 64] {
+                    found = Some((pos, be));
+                }
+            }
+            if found.is_some() {
+                break;
+            }
+        }
+    }
+    let (mpos, be) = found.ok_or("no manifest pack header found")?;
+    let check_pos = le(&b[mpos + 40..mpos + 48]) as usize;
+    let count = le(&b[mpos + 64..mpos + 66]) as usize;
+    let infos = mpos + check_pos - count * 256;
+    for k in 0..count {
+        let at = infos + k * 256;
+        if crc_bytes(&b[at..at + 252], be) != b[at + 252..at + 256] {
+            return Err(format!("pack info {k} does not verify before the patch"));
+        }
+        b[at + 35] = 0x10 + k as u8;
+        let c = crc_bytes(&b[at..at + 252], be);
+        b[at + 252..at + 256].copy_from_slice(&c);
+    }
+    // the digest: blake3 over [0, check_pos) of the pack with location + CRC of every pack info read as zeros
+    let mut view = b[mpos..mpos + check_pos].to_vec();
+    for k in 0..count {
+        let at = check_pos - count * 256 + k * 256;
+        for x in &mut view[at + 38..at + 256] {
+            *x = 0;
+        }
+    }
+    let cb = mpos + check_pos;
+    if b[cb] != 1 {
+        return Err("manifest check kind is not blake3".into());
+    }
+    let digest = blake3::hash(&view);
+    b[cb + 1..cb + 33].copy_from_slice(digest.as_bytes());
+    let c = crc_bytes(&b[cb..cb + 33], be);
+    b[cb + 33..cb + 37].copy_from_slice(&c);
+    Ok(())
 }
